@@ -20,23 +20,35 @@ package main
 //   {"kind":"sha","hex":bytes}           crypto/sha256
 //   {"kind":"v1","rows":[{"id","type","hash","date","data"}]}  excluded point: legacy rows through LogV1.ToLogsV2 + ToCore
 //   {"kind":"ikbytes","hex":bytes}       excluded point: an idempotency key that is not valid UTF-8 (HTTP header bytes)
+//   {"kind":"keybytes","hex":bytes,"pos":"key"|"address"}  observed point: a metadata key (or the account address) given as raw bytes in the path of
+//        DELETE /{ledger}/accounts/{address}/metadata/{key}: the request line
+//        goes through http.ReadRequest and the REAL v2 router (recording backend), then the key that reached the backend through a
+//        DELETE_METADATA log, the real InsertLogs and the row read back
 //
 // output: see execLogrt; everything that came out of a map is sorted, big integers are decimal strings,
 // times are [year,month,day,hour,min,sec,nanos,offsetSeconds] read in their own zone.
 
 import (
+	"bufio"
 	"bytes"
 	"crypto/sha256"
 	"encoding/hex"
 	"encoding/json"
 	"fmt"
 	"math/big"
+	"net/http"
+	"net/http/httptest"
 	"sort"
 	"strconv"
 	"strings"
 	"time"
+	"unicode/utf8"
 
 	ledger "github.com/formancehq/ledger/internal"
+	v2 "github.com/formancehq/ledger/internal/api/v2"
+	"github.com/formancehq/ledger/internal/opentelemetry/metrics"
+	"github.com/formancehq/stack/libs/go-libs/auth"
+	"github.com/formancehq/stack/libs/go-libs/health"
 	"github.com/formancehq/ledger/internal/storage/ledgerstore"
 	"github.com/formancehq/stack/libs/go-libs/metadata"
 )
@@ -378,6 +390,11 @@ func genLogrt(r *rng, n int, tier string, emit func(J)) {
 	}})
 	emit(J{"kind": "ikbytes", "hex": "6b6579ff"})
 	emit(J{"kind": "ikbytes", "hex": "c328"})
+	emit(J{"kind": "keybytes", "hex": "61ff62"})     // a\xffb : not UTF-8, sent raw
+	emit(J{"kind": "keybytes", "hex": "61254646"})   // a%FF   : the same byte percent-encoded
+	emit(J{"kind": "keybytes", "hex": "c3a9"})       // é sent raw (valid UTF-8)
+	emit(J{"kind": "keybytes", "hex": "6b6579"})     // key
+	emit(J{"kind": "keybytes", "hex": "61254646", "pos": "address"})
 	for _, l := range []int{0, 1, 31, 32, 54, 55, 56, 57, 63, 64, 65, 118, 119, 120, 121, 127, 128, 129, 183, 184, 191, 192, 193, 1000} {
 		b := make([]byte, l)
 		for i := range b {
@@ -922,6 +939,72 @@ func lrStoreChain(in J, at func(int) (J, *ledger.ChainedLog), n int) {
 	}
 }
 
+// lrKeyBytes: what becomes of a metadata key sent as raw bytes in the request line
+func lrKeyBytes(key []byte, pos string) J {
+	out := J{"valid_utf8": utf8.Valid(key)}
+	addr, sent := []byte("a"), key
+	if pos == "address" { // the bytes are the account address, the key is plain
+		addr, key = key, []byte("k")
+	}
+	fl := &fakeLedger{}
+	router := v2.NewRouter(&fakeBackend{l: fl}, &health.HealthController{}, metrics.NewNoOpRegistry(), auth.NewNoAuth())
+	raw := append(append([]byte("DELETE /l/accounts/"), addr...), []byte("/metadata/")...)
+	raw = append(raw, key...)
+	raw = append(raw, []byte(" HTTP/1.1\r\nHost: x\r\n\r\n")...)
+	req, err := http.ReadRequest(bufio.NewReader(bytes.NewReader(raw)))
+	if err != nil {
+		out["request"] = "refused by net/http: " + err.Error()
+		return out
+	}
+	rec := httptest.NewRecorder()
+	router.ServeHTTP(rec, req)
+	out["status"] = rec.Code
+	var got *writeCall
+	fl.mu.Lock()
+	for i := range fl.writes {
+		if fl.writes[i].Kind == "deletemeta" {
+			got = &fl.writes[i]
+		}
+	}
+	fl.mu.Unlock()
+	if got == nil {
+		out["reached_backend"] = false
+		return out
+	}
+	out["reached_backend"] = true
+	gotAddr, _ := got.TID.(string)
+	at := got.Key
+	if pos == "address" {
+		at = gotAddr
+	}
+	out["at_backend_hex"] = hex.EncodeToString([]byte(at))
+	out["at_backend_is_the_bytes_sent"] = at == string(sent)
+	out["at_backend_valid_utf8"] = utf8.ValidString(at)
+	// the commander writes the key into a DELETE_METADATA log; the store writes the log; a reader re-verifies it
+	cl := ledger.NewDeleteMetadataLog(ledger.Now(), ledger.DeleteMetadataLogPayload{TargetType: ledger.MetaTargetTypeAccount, TargetID: gotAddr, Key: got.Key}).ChainLog(nil)
+	st := lsOpen()
+	defer st.close()
+	if err := st.insert(cl); err != nil {
+		out["insert"] = err.Error()
+		return out
+	}
+	out["data_column"] = st.t.rows[0].text("data")
+	core, err := st.t.lsCore(0)
+	if err != nil {
+		out["read_back"] = err.Error()
+		return out
+	}
+	p, _ := core.Data.(ledger.DeleteMetadataLogPayload)
+	back := p.Key
+	if pos == "address" {
+		back = fmt.Sprint(p.TargetID)
+	}
+	out["read_back_hex"] = hex.EncodeToString([]byte(back))
+	out["read_back_same"] = back == at
+	out["rehash_same"] = hex.EncodeToString(core.Log.ChainLog(nil).Hash) == hex.EncodeToString(cl.Hash)
+	return out
+}
+
 func execLogrt(in J) J {
 	switch in["kind"] {
 	case "chain":
@@ -992,6 +1075,14 @@ func execLogrt(in J) J {
 			out["dec"] = dec
 		}
 		return out
+	case "keybytes":
+		s, _ := in["hex"].(string)
+		b, err := hex.DecodeString(s)
+		if err != nil {
+			panic("harness: bad hex")
+		}
+		pos, _ := in["pos"].(string)
+		return lrKeyBytes(b, pos)
 	case "sha":
 		s, _ := in["hex"].(string)
 		b, err := hex.DecodeString(s)
